@@ -32,7 +32,7 @@ ASSUMPTIONS = ['rule lines are recognised by ^#" (pinned literally by the reposi
 LEVEL_TEXT = ('Seeded sampling of default lists with an adversarial text generator; every output is parsed by two independent '
               'parsers and by the library loader. The description space is unbounded text, so adversarial sampling is the level.')
 LEVEL_NOTE = 'trusted: PyYAML and json as independent readers of the generated text'
-PLAN = {'quick': dict(shards=4, wall=60), 'thorough': dict(shards=16, wall=400)}
+PLAN = {'quick': dict(shards=4, wall=120), 'thorough': dict(shards=16, wall=400)}
 MIN = {'evaluations': 1000, 'yaml_samples': 500, 'json_samples': 300, 'hostile_descriptions': 500, 'deprecated_entries': 300, 'multi_namespace_samples': 100, 'regenerated_over_existing_file': 100}
 ANCHORS = ['oslo_policy.generator:_format_help_text', 'oslo_policy.generator:_format_rule_default_yaml',
            'oslo_policy.generator:_format_rule_default_json', 'oslo_policy.generator:_generate_sample',
